@@ -101,12 +101,59 @@ def tol(tau):
     return TOL * (1 + abs(tau if tau is not None else 0))
 
 
+def scale_of(pep):
+    try:
+        return max(1.0, float(np.max(np.abs(np.asarray(pep.wrapper.optimal_G)))))
+    except Exception:
+        return 1.0
+
+
 # ---------------------------------------------------------------------------------------------- checks
+def regenerated_class_data(f):
+    """what add_class_constraints generates NOW for the current samples of leaf function f (lists and tables restored afterwards)"""
+    saved = (f.list_of_class_constraints, f.list_of_class_psd, dict(f.tables_of_constraints))
+    f.list_of_class_constraints, f.list_of_class_psd = [], []
+    try:
+        f.add_class_constraints()
+        return list(f.list_of_class_constraints), list(f.list_of_class_psd)
+    finally:
+        f.list_of_class_constraints, f.list_of_class_psd = saved[0], saved[1]
+        f.tables_of_constraints.clear()
+        f.tables_of_constraints.update(saved[2])
+
+
+def check_class_constraints_current(pep, wrapper, fails):
+    """C05: the class constraints that reached the solver are those of the CURRENT samples of every leaf function"""
+    from PEPit.function import Function
+    sent_ids = {id(o) for _, o in wrapper.sent}
+    for f in Function.list_of_functions:
+        if not f.get_is_leaf():
+            continue
+        sent_c = [c for c in f.list_of_class_constraints if id(c) in sent_ids]
+        want_c, want_p = regenerated_class_data(f)
+        key = lambda c: (c.equality_or_inequality,) + tuple(np.round(x, 9).tobytes() if hasattr(x, 'tobytes') else round(x, 9) for x in expr_coeffs(c.expression))
+        a, b = sorted(map(key, sent_c), key=repr), sorted(map(key, want_c), key=repr)
+        if a != b:
+            fails.append(('C05', 'class_constraints.current', '%s: %d class constraints reached the solver, the %d current samples require %d (or other ones)' % (
+                type(f).__name__, len(sent_c), len(f.list_of_points), len(want_c))))
+        sent_p = [m for m in f.list_of_class_psd if id(m) in sent_ids]
+        if len(sent_p) != len(want_p) or any(x.shape != y.shape for x, y in zip(sent_p, want_p)):
+            fails.append(('C05', 'class_lmis.current', '%s: class LMIs sent %s, required for the current samples %s' % (
+                type(f).__name__, [m.shape for m in sent_p], [m.shape for m in want_p])))
+
+
 def check_sent(pep, wrapper, fails):
     """C05: the tracked sequence equals SPEC_SEQ(model); each cvxpy row denotes the symbolic expression"""
+    check_class_constraints_current(pep, wrapper, fails)
     want = spec_seq(pep)
     got = wrapper.sent
     nm = len(pep.list_of_performance_metrics)
+    # C01-O4: the lists through which the library exposes multipliers are exactly what was sent (one multiplier per sent object)
+    exp_c, exp_p = list(pep._list_of_constraints_sent_to_wrapper), list(pep._list_of_psd_sent_to_wrapper)
+    sent_c, sent_p = [o for k, o in got if k == 'scalar'], [o for k, o in got if k == 'lmi']
+    if len(exp_c) != len(sent_c) or any(a is not b for a, b in zip(exp_c, sent_c)) or len(exp_p) != len(sent_p) or any(a is not b for a, b in zip(exp_p, sent_p)):
+        fails.append(('C01', 'exposed_list', '%d scalar / %d matrix constraints reach the solver, %d / %d are exposed with a multiplier' % (
+            len(sent_c), len(sent_p), len(exp_c), len(exp_p))))
     if len(got) != len(want):
         fails.append(('C05', 'sent.count', '%d objects reached the solver, %d declared (metrics %d)' % (len(got), len(want), nm)))
         return
@@ -176,12 +223,14 @@ def check_sent(pep, wrapper, fails):
 def check_primal(pep, handles, tau_primal, tau_dual, wrapper, fails):
     """C02: one consistent instance"""
     from PEPit.point import Point
-    t = tol(tau_primal)
+    t = tol(tau_primal) * scale_of(pep) / max(1.0, abs(tau_primal))
+    t = max(t, tol(tau_primal))
     leaves = Point.list_of_leaf_points
     vals = [p.eval() for p in leaves]
     n = len(leaves)
     Gp = np.array([[vals[i] @ vals[j] for j in range(n)] for i in range(n)])
-    w, V = np.linalg.eigh((pep.G_value + pep.G_value.T) / 2)
+    Gs = np.asarray(wrapper.optimal_G)              # the Gram matrix found by the solver (not the library's post-processed copy)
+    w, V = np.linalg.eigh((Gs + Gs.T) / 2)
     Gproj = (V * np.maximum(w, 0)) @ V.T
     if np.max(np.abs(Gp - Gproj), initial=0) > 10 * t:
         fails.append(('C02', 'gram', 'inner products of the evaluated leaf points differ from the PSD projection of the Gram matrix by %.3g' % np.max(np.abs(Gp - Gproj))))
